@@ -85,6 +85,18 @@ fn run_lib(entry: &str, settings: &Settings, input: &str) -> String {
         svgbob::to_svg_string_compressed(input)
     } else if entry == "settings" {
         svgbob::to_svg_with_settings(input, settings)
+    } else if entry == "reuse" {
+        // one buffer rendered three times through the public API: default settings, another scale, then the
+        // requested settings; the last document must be the one a fresh buffer gives
+        let cb = svgbob::CellBuffer::from(input);
+        let _first: svgbob::Node<()> = cb.get_node();
+        let mut other = settings.clone();
+        other.scale = settings.scale * 2.5;
+        let _second: (svgbob::Node<()>, f32, f32) = cb.get_node_with_size(&other);
+        let (node, _w, _h): (svgbob::Node<()>, f32, f32) = cb.get_node_with_size(settings);
+        let mut buffer = String::new();
+        node.render(&mut buffer).expect("must render");
+        buffer
     } else if let Some(rest) = entry.strip_prefix("override:") {
         let mut it = rest.split(':');
         let w = parse_f32(it.next().unwrap());
